@@ -138,6 +138,8 @@ def run(repo, res):
                       '%s returns `%s`, which may contain duplicates (%s)' % (fi.qual, unparse(r.value), why),
                       nontrivial=False)
     res.count('attr_list_impls', nal, floor=4)
+    from .. import resolve_model as M
+    M.check_merged_dict(repo, res, 'C12-R2')
     # ---- R3 the marker cannot reach the proposals -----------------------------------------------------
     src_cls = repo.klass('supp/util.py', 'Source')
     spliced = 'SOURCE_MARK' in unparse(src_cls)
